@@ -40,6 +40,10 @@ import (
 // `create` line the tool may already have executed.
 const c16KnownTempLeak = "c16-temp-set-leaked-after-restore-stdin-write-error"
 
+// c16KnownMarkInherited: writeUpdates() stores the old set's metadata, including its
+// DeleteFailed mark, for the temporary set even when the swap never happened.
+const c16KnownMarkInherited = "c16-temp-set-inherits-delete-failed-mark"
+
 type c16NoopRecorder struct{}
 
 func (c16NoopRecorder) RecordOperation(string) {}
@@ -126,6 +130,9 @@ type c16H struct {
 	// leaked: temp sets created by a restore session whose stdin broke (known finding
 	// c16KnownTempLeak), not yet seen by a `list -name`.
 	leaked      map[string]bool
+	// inherited: temp sets created by a restore session that failed while a main set carried
+	// Felix's "destroy failed, skip until resync" mark (known finding c16KnownMarkInherited).
+	inherited   map[string]bool
 	sessTemps   map[int][]string // restore CmdSeq -> temp sets it created
 	rec         *ev.Recorder
 
@@ -215,6 +222,7 @@ func (h *c16H) observe(k *ktsim.IPSetKernel, e *ktsim.IPSetEvent) {
 		if e.Err == "" {
 			h.taint[name] = false
 			h.exempt[name] = false
+			h.inherited[name] = false
 		} else if e.Cause == "semantic" && !k.Exists(name) {
 			h.taint[name] = false
 			h.exempt[name] = false
@@ -252,10 +260,21 @@ func (h *c16H) observe(k *ktsim.IPSetKernel, e *ktsim.IPSetEvent) {
 		if e.Cmd == "restore" && e.LineNo > 1 {
 			h.failLineGt1 = true
 		}
-		if e.Cmd == "restore" && e.Line == "<EOF after broken pipe>" {
+		if e.Cmd == "restore" {
+			anyMarked := false
+			for n, x := range h.exempt {
+				if x && !h.cfg.IsTempIPSetName(n) {
+					anyMarked = true
+				}
+			}
 			for _, n := range h.sessTemps[e.CmdSeq] {
-				if k.Exists(n) {
+				if !k.Exists(n) {
+					continue
+				}
+				if e.Line == "<EOF after broken pipe>" {
 					h.leaked[n] = true
+				} else if anyMarked {
+					h.inherited[n] = true
 				}
 			}
 		}
@@ -265,6 +284,11 @@ func (h *c16H) observe(k *ktsim.IPSetKernel, e *ktsim.IPSetEvent) {
 		if f := strings.Fields(e.Line); len(f) > 1 && h.cfg.IsTempIPSetName(f[1]) {
 			h.sessTemps[e.CmdSeq] = append(h.sessTemps[e.CmdSeq], f[1])
 		}
+	}
+	if f := strings.Fields(e.Line); len(f) == 3 && f[0] == "swap" {
+		// The kernel object whose destroy was made to fail now lives under the other name;
+		// Felix's "skip until next resync" mark legitimately follows it.
+		h.exempt[f[1]], h.exempt[f[2]] = h.exempt[f[2]], h.exempt[f[1]]
 	}
 	for _, n := range e.Touched {
 		if !h.owned(n) {
@@ -458,7 +482,15 @@ func (h *c16H) checkLeftovers(when string, strict bool) {
 			h.rec.Excluded(c16KnownTempLeak)
 			continue
 		}
+		if !strict && h.inherited[n] && ev.Known(c16KnownMarkInherited) {
+			h.rec.Excluded(c16KnownMarkInherited)
+			continue
+		}
 		s, _ := h.k.Get(n)
+		if h.inherited[n] && !h.leaked[n] {
+			h.t.Fatalf("%s [%s]: temporary set %v was created by an `ipset restore` session that failed before its swap executed, while the set it was to replace carried Felix's destroy-failed mark; Felix copied that mark to the temp set, so it is skipped by every deletion pass until the next resync although no destroy of it ever failed; ops=%v\nlast events:%s",
+				when, c16KnownMarkInherited, s, h.ops, h.trace())
+		}
 		if h.leaked[n] {
 			h.t.Fatalf("%s [%s]: temporary set %v was created by an `ipset restore` session whose stdin then broke; ApplyUpdates retried and returned success but Felix never recorded the temp set, so it stays until the next name listing; ops=%v",
 				when, c16KnownTempLeak, s, h.ops)
@@ -530,7 +562,7 @@ func TestVerifC16IPSetSync(t *testing.T) {
 		"members stay within maxelem / the bitmap range")
 	defer rec.Write()
 	rapid.Check(t, func(t *rapid.T) {
-		h := &c16H{t: t, classes: map[string]bool{}, rec: rec, leaked: map[string]bool{}, sessTemps: map[int][]string{}}
+		h := &c16H{t: t, classes: map[string]bool{}, rec: rec, leaked: map[string]bool{}, inherited: map[string]bool{}, sessTemps: map[int][]string{}}
 		h.v6 = rapid.IntRange(0, 6).Draw(t, "plane") == 0
 		h.family = "inet"
 		fam := ipsets.IPFamilyV4
@@ -564,6 +596,8 @@ func TestVerifC16IPSetSync(t *testing.T) {
 			{"felix-other", "hash:ip family inet maxelem 65536", []string{"1.2.3.4"}},
 			{"cali", "hash:ip,port family inet maxelem 65536", []string{"10.0.0.1,tcp:80"}},
 			{"KUBE-PORTS", "bitmap:port range 0-65535", []string{"80"}},
+			{"xcali" + ver + "0s:ipA", "hash:ip family inet maxelem 65536", []string{"10.0.0.9"}},
+			{"my-felix-" + ver + "set", "hash:ip family inet maxelem 65536", nil},
 		}
 		if h.v6 {
 			foreignCands = append(foreignCands, startSet{"felix-masq-ipam-pools", "hash:net family inet maxelem 65536", []string{"10.0.0.0/16"}})
@@ -892,10 +926,25 @@ func TestVerifC16IPSetSync(t *testing.T) {
 			"converge": func(t *rapid.T) {
 				h.k.RestoreFaults, h.k.ListFaults, h.k.DestroyFaults = nil, nil, nil
 				h.k.ExtRefs = map[string]bool{}
-				h.s.QueueResync()
 				h.ops = append(h.ops, "C")
-				if !h.quiesce() {
-					t.Fatalf("Felix gave up although all faults had been cleared; ops=%v", h.ops)
+				// A set whose destroy failed earlier is retried only after Felix re-lists that
+				// name; a swap may have moved the marked object to a fresh temp name after the
+				// names were listed, so allow a second (and third) fault-free resync round.
+				for round := 0; round < 3; round++ {
+					h.s.QueueResync()
+					if !h.quiesce() {
+						t.Fatalf("Felix gave up although all faults had been cleared; ops=%v", h.ops)
+					}
+					pending := false
+					for _, n := range h.k.Names() {
+						if h.owned(n) && (h.exempt[n] || h.inherited[n]) {
+							pending = true
+						}
+					}
+					if !pending {
+						break
+					}
+					h.classes["converge-needed-extra-resync"] = true
 				}
 				h.checkDesired("after fault-free resync and cycles until quiet", true)
 				h.checkLeftovers("after fault-free resync and cycles until quiet", true)
